@@ -1,6 +1,7 @@
 package drive
 
 import (
+	"math/big"
 	"fmt"
 	"strconv"
 	"strings"
@@ -91,6 +92,18 @@ func (e *c02ex) Exec(op string) string {
 			parts[i] = strconv.FormatUint(x, 10)
 		}
 		return "ok " + strings.Join(parts, ",")
+	case "legacy":
+		// a nonce record written by an early version of the library: the newest nonce as a raw
+		// big-endian integer instead of the list message
+		if len(w) != 3 || e.c == nil || e.user(w[1]) == nil {
+			return "bad-op"
+		}
+		n, ok := new(big.Int).SetString(w[2], 10)
+		if !ok || n.Sign() <= 0 {
+			return "bad-op"
+		}
+		e.c.L.State["\x002a\x00"+e.user(w[1]).Addr+"\x00"] = n.Bytes()
+		return "ok"
 	case "sign":
 		if len(w) != 4 || e.c == nil {
 			return "bad-op"
@@ -173,6 +186,8 @@ func (e *c02ex) Exec(op string) string {
 	return "bad-op"
 }
 
+var users0 = []string{"u0", "u1", "u2"}
+
 func genC02(c *Cfg, emit func([]string)) {
 	const b = uint64(1700000000000)
 	ttl := uint64(core.VerifDefaultNonceTTL) * 1000
@@ -234,6 +249,44 @@ func genC02(c *Cfg, emit func([]string)) {
 		}
 		emit(h)
 	}
+	// (b') long walks inside one validity window: hundreds of accepted nonces of one sender within
+	// 50 s (the stored list grows that long), then the earliest ones again
+	nLong := 12
+	if c.Thorough() {
+		nLong = 300
+	}
+	for i := 0; i < nLong; i++ {
+		h := []string{"reset"}
+		cur := b + uint64(c.Rng.Intn(100000))
+		var sent []uint64
+		n := 130 + c.Rng.Intn(200)
+		for j := 0; j < n; j++ {
+			cur += uint64(1 + c.Rng.Intn(int(ttl)/n))
+			v := cur
+			if c.Rng.Intn(6) == 0 && len(sent) > 3 {
+				v = sent[len(sent)-1-c.Rng.Intn(3)] - 1 // just below a recent one: inside the window, unused or used
+			}
+			sent = append(sent, v)
+			h = append(h, fmt.Sprintf("nonce p0 %d", v))
+		}
+		for j := 0; j < 12; j++ {
+			h = append(h, fmt.Sprintf("nonce p0 %d", sent[c.Rng.Intn(20)]), fmt.Sprintf("nonce p0 %d", sent[c.Rng.Intn(len(sent))]))
+		}
+		emit(h)
+	}
+	// (c') a sender whose stored record is in the old single-integer format: the stored value counts
+	// like an accepted nonce on both routes
+	for i := 0; i < 8; i++ {
+		old := b + uint64(c.Rng.Intn(1000000))
+		u := users0[i%3]
+		h := []string{"reset", fmt.Sprintf("legacy %s %d", u, old), "getnonce " + u,
+			fmt.Sprintf("sign %s %d nop", u, old), fmt.Sprintf("sign %s %d nop", u, old-ttl-1), fmt.Sprintf("sign %s %d nop", u, old-ttl), fmt.Sprintf("sign %s %d nop", u, old+5),
+			fmt.Sprintf("sign %s %d nop", users0[(i+1)%3], old)}
+		route := []string{"batch", "tasks"}[i%2]
+		other := []string{"tasks", "batch"}[i%2]
+		h = append(h, "run "+route+" 0", "run "+other+" 0 1", "run "+route+" 2 3 4", "getnonce "+u, "run "+other+" 0 3 2")
+		emit(h)
+	}
 	// (c) end to end through Invoke: batches and task lists interleaved, identical signed requests
 	// re-submitted (same batch, later batch, other route), failing bodies
 	users := []string{"u0", "u1", "u2"}
@@ -283,6 +336,6 @@ func genC02(c *Cfg, emit func([]string)) {
 		}
 		emit(h)
 	}
-	c.Rule = fmt.Sprintf("(a) all sequences of length %d over a 14-value symbolic nonce alphabet {b, b±1, b±ttl, b±(ttl±1), b+2ttl, 10^12-1, 10^12, 10^13-1, 10^13} on the exported setNonce (exhaustive; window printed after each step); (b) %d random walks of 5..29 steps over 2 senders with duplicates and format boundaries; (c) %d end-to-end histories through Invoke: signed requests of 3 senders executed by batchExecute and executeTasks interleaved, identical signed requests replayed in the same/later batch and through the other route, failing bodies; non-trivial = at least two nonce decisions for one store; distinct = sha256 of op+output text", maxLen, nWalk, nE2E)
+	c.Rule = fmt.Sprintf("(a) all sequences of length %d over a 14-value symbolic nonce alphabet {b, b±1, b±ttl, b±(ttl±1), b+2ttl, 10^12-1, 10^12, 10^13-1, 10^13} on the exported setNonce (exhaustive; window printed after each step); (b) %d random walks of 5..29 steps over 2 senders with duplicates and format boundaries, and walks of 130..330 accepted nonces inside one window followed by their replays; (c') senders whose stored record has the old single-integer format; (c) %d end-to-end histories through Invoke: signed requests of 3 senders executed by batchExecute and executeTasks interleaved, identical signed requests replayed in the same/later batch and through the other route, failing bodies; non-trivial = at least two nonce decisions for one store; distinct = sha256 of op+output text", maxLen, nWalk, nE2E)
 	c.Extra = map[string]any{"alphabet": len(sym), "exhaustive_len": maxLen, "random_walks": nWalk, "e2e_histories": nE2E, "ttl_ms": ttl}
 }
